@@ -330,15 +330,20 @@ def astep (f : Fn) (pc : Nat) (i : BInstr) (a : AState) : Except String (List (N
     | some (_, _, rest) => .ok [(pc + 1, { a with frames := rest })]
     | none => .error s!"stack-mark {s} is not open"
   | .exitLoop l off p =>
-    match cutTo l a.frames, loopPos f.code l with
-    | some (_, fr, rest), some pos =>
-      if p ≤ a.k then
-        match target pos off len with
-        | some t => .ok [(t, { a with k := a.k - p, frames := { fr with cnt := ⟨.junk, 0⟩ } :: rest })]
-        | none => .error "break/continue out of bounds"
-      else .error "break/continue pops more scopes than are open"
-    | none, _ => .error s!"break/continue: loop {l} is not open"
-    | _, none => .error s!"break/continue: loop {l} is not in this function"
+    match loopPos f.code l with
+    | none =>
+      -- the loop belongs to another function (a `break` compiled inside a `fn` that sits in a
+      -- loop): `FindLoop` fails, the instruction is a run-time error and has no successor
+      .ok []
+    | some pos =>
+      match cutTo l a.frames with
+      | some (_, fr, rest) =>
+        if p ≤ a.k then
+          match target pos off len with
+          | some t => .ok [(t, { a with k := a.k - p, frames := { fr with cnt := ⟨.junk, 0⟩ } :: rest })]
+          | none => .error "break/continue out of bounds"
+        else .error "break/continue pops more scopes than are open"
+      | none => .error s!"break/continue: loop {l} is not open"
   | .xfer =>
     if 1 ≤ a.k then
       match popPush { a with k := a.k - 1 } 0 1 with
